@@ -216,6 +216,11 @@ func RunFull(c *gen.Ctx, prop string, cfgs []xeng.Config, nops, perOp int, singl
 			return err
 		}
 	}
+	if schedules {
+		if err := inFlightTogether(c, probes, meta); err != nil {
+			return err
+		}
+	}
 
 	// ---- operations --------------------------------------------------------------------------------
 	var ops []genOp
